@@ -95,6 +95,16 @@ def thorough_runs():
     return runs, plan_module(plans)
 
 
+def go_test(ctx, *a, **kw):
+    """ctx.go_test + the drift notes of the harness in the log (drift must be 0 on an unchanged tree)."""
+    rep = ctx.go_test(*a, **kw)
+    if rep.get("drift"):
+        for n in (rep.get("drift_notes") or [])[:5]:
+            ctx.log("DRIFT (harness %s): %s" % (kw.get("run") or kw.get("name") or "", n[:600]))
+            ctx.notes.append("DRIFT %s: %s" % (kw.get("run") or "", n[:300]))
+    return rep
+
+
 def tlc_ok(ctx, covered, all_actions, name, module, cfg_text, files, timeout, coverage):
     fs = dict(files)
     fs["run.cfg"] = cfg_text
@@ -181,11 +191,11 @@ def run(ctx):
         obj = json.load(open(ctx.replay)).get("replay") or {}
         kind = obj.get("kind") if isinstance(obj, dict) else None
         if kind == "record":
-            ctx.go_test("./streampool", run="TestRecord$", env={"VERIF_REPLAY_SEED": obj["runSeed"], "VERIF_RUN_LEN": obj["len"], "VERIF_RUNS": 1})
+            go_test(ctx, "./streampool", run="TestRecord$", env={"VERIF_REPLAY_SEED": obj["runSeed"], "VERIF_RUN_LEN": obj["len"], "VERIF_RUNS": 1})
         elif kind == "stress":
-            ctx.go_test("./streampool", run="TestStress$", env={"VERIF_REPLAY_SEED": obj["runSeed"], "VERIF_RUN_LEN": obj["ops"], "VERIF_RUNS": 1})
+            go_test(ctx, "./streampool", run="TestStress$", env={"VERIF_REPLAY_SEED": obj["runSeed"], "VERIF_RUN_LEN": obj["ops"], "VERIF_RUNS": 1})
         elif kind == "multiqueue":
-            ctx.go_test("./streampool", run="TestMultiQueue$", env={"VERIF_REPLAY_SEED": obj["runSeed"], "VERIF_RUN_LEN": obj["len"], "VERIF_RUNS": 1})
+            go_test(ctx, "./streampool", run="TestMultiQueue$", env={"VERIF_REPLAY_SEED": obj["runSeed"], "VERIF_RUN_LEN": obj["len"], "VERIF_RUNS": 1})
         elif kind == "sync-handlemessage":
             run_sync_wiring(ctx)
         elif kind == "trace" and obj.get("what") == "multiqueue":
@@ -194,7 +204,7 @@ def run(ctx):
             ctx.log("replay of a trace violation: re-recording the %s traces" % obj.get("what"))
             run_traces(ctx, False)
         else:
-            ctx.go_test("./streampool", run="TestReplay$")
+            go_test(ctx, "./streampool", run="TestReplay$")
         return
 
     if os.environ.get("VERIF_C19_ONLY") == "mq":   # development only
@@ -230,7 +240,7 @@ def run(ctx):
             raise CheckBroken("behaviour generation failed (%s): %s\n%s" % (cfg, g.error, g.out[-2000:]))
         if not os.listdir(d):
             raise CheckBroken("no behaviours emitted by %s" % cfg)
-    ctx.go_test("./streampool", run="TestReplay$", env={"VERIF_BEHAVIOURS": ":".join(dirs)}, timeout=2400)
+    go_test(ctx, "./streampool", run="TestReplay$", env={"VERIF_BEHAVIOURS": ":".join(dirs)}, timeout=2400)
 
     # ---- 3. code -> spec
     run_traces(ctx, thorough)
@@ -249,7 +259,7 @@ def run_multiqueue(ctx, thorough, mc=True):
         ctx.tlc_expect_ok("streampool", "MultiQueue", "MultiQueue_live.cfg", timeout=1500, workers=min(8, ctx.cores),
                           name="mc:multiqueue-liveness")
     trace = os.path.join(ctx.scratch, "mq-trace.ndjson")
-    rep = ctx.go_test("./streampool", run="TestMultiQueue$", env={"VERIF_TRACE_OUT": trace, "VERIF_RUNS": 150 if thorough else 25,
+    rep = go_test(ctx, "./streampool", run="TestMultiQueue$", env={"VERIF_TRACE_OUT": trace, "VERIF_RUNS": 150 if thorough else 25,
                                                                   "VERIF_RUN_LEN": 80 if thorough else 60}, timeout=2400)
     if rep.get("violations"):
         ctx.log("violations during the multiqueue runs; trace validation of the partial trace skipped")
@@ -263,7 +273,7 @@ def run_multiqueue(ctx, thorough, mc=True):
 def run_sync_wiring(ctx):
     """commonspace/sync wires the multiqueue behind HandleMessage (queue size 100, overflow swallowed):
     scenario test injected into the package (uses its own test fixture)."""
-    ctx.go_test("./commonspace/sync/", run="TestVerifC19HandleMessage$", in_repo=True, timeout=900,
+    go_test(ctx, "./commonspace/sync/", run="TestVerifC19HandleMessage$", in_repo=True, timeout=900,
                 overlay={"commonspace/sync/zz_verif_c19_test.go": os.path.join(VERIF, "harness", "inpkg", "sync", "zz_verif_c19_test.go")},
                 name="commonspace/sync HandleMessage (overlay)")
 
@@ -271,7 +281,7 @@ def run_sync_wiring(ctx):
 def run_traces(ctx, thorough):
     # 3a. gated random driver -> action-level trace
     trace = os.path.join(ctx.scratch, "sp-trace.ndjson")
-    rep = ctx.go_test("./streampool", run="TestRecord$", env={"VERIF_TRACE_OUT": trace, "VERIF_RUNS": 120 if thorough else 25,
+    rep = go_test(ctx, "./streampool", run="TestRecord$", env={"VERIF_TRACE_OUT": trace, "VERIF_RUNS": 120 if thorough else 25,
                                                               "VERIF_RUN_LEN": 100 if thorough else 80}, timeout=2400)
     n_events = int(rep["extra"].get("trace_events", 0))
     if rep.get("violations"):
@@ -281,7 +291,7 @@ def run_traces(ctx, thorough):
                        lambda: open(trace).read().splitlines())
     # 3b. free-running concurrent executions -> hook-level trace
     raw = os.path.join(ctx.scratch, "sp-hook.ndjson")
-    rep2 = ctx.go_test("./streampool", run="TestStress$", env={"VERIF_TRACE_OUT": raw, "VERIF_RUNS": 200 if thorough else 40,
+    rep2 = go_test(ctx, "./streampool", run="TestStress$", env={"VERIF_TRACE_OUT": raw, "VERIF_RUNS": 200 if thorough else 40,
                                                               "VERIF_RUN_LEN": 30 if thorough else 25}, timeout=2400)
     n2, pools2, _ = validate_hook_trace(ctx, raw, "trace-validation (free-running, hooks)", "free-running")
     n_events += n2
